@@ -1,6 +1,7 @@
 (* C08 — decoders are total: no panic, no hang, bounded memory. What is
    proved concerns the logic of the models (DESIGN.md: the Go allocator, GC
    and wall time are measured by the harness, not proved). *)
+From V Require Import Window.Dict Window.DictSpec Window.DictThms Window.DictBr Window.DictBrSpec Window.DictBrThms.
 From V Require Import Base.Prelude Base.Prog Flate.Spec Flate.Safe Brotli.Spec Brotli.Safe XFlate.Index XFlate.Reader XFlate.Thms Life.ReadLoop Flate.Safe Flate.Fuel Brotli.Fuel Bzip2.Common Bzip2.SpecR Bzip2.Safe.
 
 (* the index record loop appends at most |payload|/2 records, whatever
@@ -92,3 +93,28 @@ Theorem bzip2_decoder_terminates : forall input,
   end.
 Proof. exact bzip2_decode_total. Qed.
 Print Assumptions bzip2_decoder_terminates.
+
+(* memory of the sliding window: the buffer never exceeds max(recycled capacity (4096 when
+   none), min(window size, 4 x bytes produced)) - a short stream never allocates the full
+   window, whatever window size the stream header declares; flate and brotli windows *)
+Theorem flate_window_memory_bounded_by_output : forall size recycled ops st0 obs st',
+  size_ok size -> dd_init size recycled = Ok st0 -> proto st0 ops -> no_reinit ops ->
+  dd_run st0 ops = (map Ok obs, st') ->
+  exists s', wsp_run (wsp_init size) ops (map Ok obs) = Some s' /\
+    let c0 := match recycled with None => initSize | Some a => zlen a end in
+    let total := zlen (s_out s') in
+    (d_cap st' <= Z.max c0 (Z.min size (4 * total)) /\
+     d_len st' <= Z.max (Z.min c0 size) (Z.min size (4 * total)))%Z.
+Proof. exact dict_memory. Qed.
+Print Assumptions flate_window_memory_bounded_by_output.
+
+Theorem brotli_window_memory_bounded_by_output : forall size recycled ops st0 obs st',
+  bsize_ok size -> recycled_ok recycled -> br_init size recycled = Ok st0 ->
+  br_proto st0 ops -> br_no_reinit ops -> br_run st0 ops = (map Ok obs, st') ->
+  exists s', bsp_run (wsp_init size) ops (map Ok obs) = Some s' /\
+    let c0 := match recycled with None => initSize | Some a => zlen a end in
+    let total := zlen (s_out s') in
+    (d_cap st' <= Z.max c0 (Z.min size (4 * total)) /\
+     d_len st' <= Z.max (Z.min c0 size) (Z.min size (4 * total)))%Z.
+Proof. exact br_memory. Qed.
+Print Assumptions brotli_window_memory_bounded_by_output.
